@@ -6,6 +6,8 @@
 //            npos} and n in {0..size+2, npos} is tried (exhaustive).
 // mode=rand  random longer strings (length <= 64) over several alphabets.
 #include <verif.hpp>
+
+#include <sys/mman.h>
 #include <slice.hpp>
 
 #include <stdexcept>
@@ -409,6 +411,56 @@ static void check_null(const std::string& x, Rng& rng) {
     verif::count("null_view_rounds");
 }
 
+// mode=huge: views of more than 2^31 and 2^32 bytes (all-zero bytes in untouched anonymous pages, so they
+// cost no memory): sizes, size differences and positions that do not fit 32 bits.
+static void mode_huge(Rng& rng) {
+    static const std::string none;
+    g_hay = &none; g_needle = &none; g_pos = g_n = g_pos2 = g_n2 = 0;
+    const size_t G2 = (size_t)1 << 31, G4 = (size_t)1 << 32, MAP = G4 + 4096;
+    void* mem = mmap(nullptr, MAP, PROT_READ, MAP_PRIVATE | MAP_ANONYMOUS | MAP_NORESERVE, -1, 0);
+    if (mem == MAP_FAILED) { verif::count("huge_mmap_failed"); return; }
+    const char* z = static_cast<const char*>(mem);
+    const std::vector<size_t> small = { 0, 1, 3 }, big = { G2 - 1, G2, G2 + 3, G4 - 1, G4, G4 + 3 };
+    auto pair = [&](size_t a, size_t b, bool deep) {
+        g_pos = a; g_n = b;   // reported as pos / n: the two view lengths
+        TV t(z, a), tx(z + (rng.coin() ? 0 : 1), b);   // equal content, same or different start
+        SV s(t.data(), a), sx(tx.data(), b);
+        chk("huge:size", [&] { return t.size(); }, [&] { return s.size(); });
+        chk("huge:compare(view)", [&] { return sign(t.compare(tx)); }, [&] { return sign(s.compare(sx)); });
+        chk("huge:operator==(view,view)", [&] { return t == tx; }, [&] { return s == sx; });
+        chk("huge:operator!=(view,view)", [&] { return t != tx; }, [&] { return s != sx; });
+        chk("huge:operator<(view,view)", [&] { return t < tx; }, [&] { return s < sx; });
+        chk("huge:operator<=(view,view)", [&] { return t <= tx; }, [&] { return s <= sx; });
+        chk("huge:operator>(view,view)", [&] { return t > tx; }, [&] { return s > sx; });
+        chk("huge:operator>=(view,view)", [&] { return t >= tx; }, [&] { return s >= sx; });
+        chk("huge:starts_with(view)", [&] { return t.starts_with(tx); }, [&] { return std_starts_with(s, sx); });
+        chk("huge:ends_with(view)", [&] { return t.ends_with(tx); }, [&] { return std_ends_with(s, sx); });
+        chk("huge:compare(pos,n,view)", [&] { return sign(t.compare(a / 2, npos, tx)); }, [&] { return sign(s.compare(a / 2, npos, sx)); });
+        chk("huge:compare(pos,n,view,pos2,n2)", [&] { return sign(t.compare(a / 2, npos, tx, b / 2, npos)); }, [&] { return sign(s.compare(a / 2, npos, sx, b / 2, npos)); });
+        chk("huge:substr(pos).size", [&] { return t.substr(a / 2 + a / 4).size(); }, [&] { return s.substr(a / 2 + a / 4).size(); });
+        chk("huge:substr(pos,n).size", [&] { return t.substr(a / 4, a / 2).size(); }, [&] { return s.substr(a / 4, a / 2).size(); });
+        chk("huge:remove_prefix", [&] { TV c = t; c.remove_prefix(a / 2); return c.size(); }, [&] { SV c = s; c.remove_prefix(a / 2); return c.size(); });
+        chk("huge:remove_suffix", [&] { TV c = t; c.remove_suffix(a / 2); return c.size(); }, [&] { SV c = s; c.remove_suffix(a / 2); return c.size(); });
+        if (deep) {
+            // scans over the whole view: a byte that does not occur, the empty needle at the far end
+            chk("huge:find(char)", [&] { return t.find('x'); }, [&] { return s.find('x'); });
+            chk("huge:rfind(char)", [&] { return t.rfind('\0'); }, [&] { return s.rfind('\0'); });
+            chk("huge:find(char,pos)", [&] { return t.find('\0', a - 1); }, [&] { return s.find('\0', a - 1); });
+            chk("huge:find_first_not_of(char)", [&] { return t.find_first_not_of('\0'); }, [&] { return s.find_first_not_of('\0'); });
+            chk("huge:find_last_of(char)", [&] { return t.find_last_of('\0'); }, [&] { return s.find_last_of('\0'); });
+            chk("huge:rfind(empty view)", [&] { return t.rfind(TV()); }, [&] { return s.rfind(SV()); });
+            chk("huge:find(empty view,pos)", [&] { return t.find(TV(), a); }, [&] { return s.find(SV(), a); });
+        }
+        verif::count("huge_view_pairs");
+    };
+    for (size_t a : small) for (size_t b : big) { pair(a, b, false); pair(b, a, false); }
+    // big against big: the comparison reads min(a, b) bytes, so only a few
+    pair(G2, G4 + 3, false); pair(G4 + 3, G2, false); pair(G2 + 3, G2 + 3, false); pair(G2 - 1, G2, false); pair(G4, G4 - 1, true); pair(G2 + 3, 3, true);
+    munmap(mem, MAP);
+    verif::cover("huge:views-up-to-2^32+3");
+    verif::sample("huge: views of 0,1,3 and 2^31-1 .. 2^32+3 zero bytes against each other: compare / relational operators / starts_with / ends_with / substr / find");
+}
+
 static std::string rand_string(Rng& rng, size_t maxlen, int alpha) {
     size_t len = rng.below(maxlen + 1);
     std::string s(len, 'a');
@@ -426,6 +478,7 @@ static std::string rand_string(Rng& rng, size_t maxlen, int alpha) {
 static void run_case(Rng& rng, uint64_t index) {
     std::string mode = verif::param("mode", "exh");
     uint64_t c0 = g_calls;
+    if (mode == "huge") { mode_huge(rng); verif::count("calls_compared", g_calls - c0); return; }
     if (mode == "exh") {
         const uint64_t nh = count_strings(5), nn = count_strings(3);
         // stride>1: a residue class of the enumeration, chosen by the seed
